@@ -246,7 +246,22 @@ def check(ctx):
             continue
         for i in range(0, len(al), 40):
             jobs.append((name, lang, text, al[i:i + 40], "defaults", {}))
-    ctx.log("jobs: %d" % len(jobs))
+    # option sweep: every single deviation (lexer-altering options included) over the options a program's run reads, on the
+    # uniformly CRLF (thorough: + CR, + alternating) spelling of the program: whatever the option, converting the terminators
+    # must change nothing else
+    R = bee.reg()
+    nsweep = 0
+    for name, lang, text in SMALL:
+        if quick and name not in ("macro-cont", "cpp-cmt-cont", "rawstring", "region", "string-cont", "macro-cmt", "blockcmt-stars", "pp-if"):
+            continue
+        L = text.count("\n")
+        vs = [("crlf",) * L] if quick else [("crlf",) * L, ("cr",) * L, tuple(("crlf", "lf", "cr")[i % 3] for i in range(L))]
+        r0 = run.unc(text.encode(), "newlines=lf\n", lang, hooks=("reads",))
+        pred = lambda n: n != "newlines" and not n.startswith(("utf8_", "cmt_insert_", "debug_"))
+        for d in configs.singles(R, {}, r0.reads, pred, allow_lexer=True):
+            jobs.append((name, lang, text, vs, "defaults+" + d[0], {d[0]: d[1]}))
+            nsweep += 1
+    ctx.log("jobs: %d (option-sweep jobs: %d)" % (len(jobs), nsweep))
     agg = {"runs": 0, "nontrivial": 0, "variants": 0, "outcomes": {}}
     with run.Pool() as pool:
         a = job(jobs[0]); b = job(jobs[0])
